@@ -160,18 +160,11 @@ class Codec:
 
         parsed_length = valid_idx
 
-        msg = rawmsg[valid_idx:].decode("latin-1")
+        msg_text = rawmsg[valid_idx:].decode("latin-1")
 
-        next_msg = msg[5:].find("8=FIX.")
-        if next_msg != -1:
-            # Next fix message added, but incomplete
-            next_msg += 5
-        else:
-            next_msg = len(msg)
-
-        encoded_msg = rawmsg[valid_idx : next_msg + valid_idx]
-
-        msg = msg[:next_msg].split(self.SOH)
+        # (the frame ends where BodyLength says, see below: field values may contain
+        #   any text without SOH, also text that looks like the start of a frame)
+        msg = msg_text.split(self.SOH)
         if not msg[-1]:
             msg = msg[:-1]
 
@@ -208,9 +201,24 @@ class Codec:
             msg_length += int(value)
 
         # message looks incomplete
-        if msg_length > len(rawmsg):
+        if msg_length > len(msg_text):
             assert silent, "incomplete message"
             return (None, parsed_length, None)
+
+        # the frame: the bytes BodyLength announces when a CheckSum field closes them;
+        #   otherwise (BodyLength wrong) everything up to the next frame start
+        frame_end = msg_length
+        if (
+            msg_text[msg_length - 8 : msg_length - 4] != self.SOH + "10="
+            or msg_text[msg_length - 1] != self.SOH
+        ):
+            next_msg = msg_text[5:].find("8=FIX.")
+            frame_end = next_msg + 5 if next_msg != -1 else len(msg_text)
+
+        encoded_msg = rawmsg[valid_idx : valid_idx + frame_end]
+        msg = msg_text[:frame_end].split(self.SOH)
+        if not msg[-1]:
+            msg = msg[:-1]
 
         checksum_passed = False
         parsed_length += msg_length
